@@ -662,8 +662,11 @@ def run(chk, replay=None):
     counterexamples = 0
     unjudged = 0
 
+    draw_keys = {'now': ()}
+
     def req(cmd, k, lines):
-        return cmd + ' ' + c20_placer.request(k, lines)
+        # Schematic.draw(**kwargs) removes the options named like a keyword argument from every component (except `style`)
+        return cmd + ' ' + c20_placer.request(k, lines, draw_keys['now'])
 
     def pos_str(pos):
         return ' '.join('%s=%s,%s' % (n, fstr(x), fstr(y)) for n, (x, y) in pos.items())
@@ -764,13 +767,15 @@ def run(chk, replay=None):
                 chk.count('feature', key)
         for l in lines:
             chk.count('component', re.match(r'[A-Za-z]+', l.split()[0]).group(0))
+        draw_keys['now'] = ()
         covered = correspondence(lines, k, origin)
         # ---- the graph placer itself: ordered graphs + Graph.solve on the real graphs (model of schemgraph.py)
         if covered:
             pb = c20_placer.run_placer(chk, drv, R, lines, k, origin)
             if pb is not None:
                 disagreements.append(pb)
-        # ---- consistency witness, judged by the Lean spec
+        # ---- consistency witness, judged by the Lean spec (of the netlist AS DRAWN with these keyword arguments)
+        draw_keys['now'] = tuple(sorted(list(extra) + ['node_spacing']))
         spec = drv.ask1(req('lay.spec', k, lines))
         if spec.startswith('error:'):
             chk.count('degenerate', 'spec-' + spec)
@@ -806,7 +811,7 @@ def run(chk, replay=None):
                                           'placer %s raises on consistent hints' % method):
                         counterexamples += 1
                 continue
-            if method == 'graph' and covered and not extra:
+            if method == 'graph' and covered:
                 # the model of SchemGraphPlacer.solve END TO END (raw netlist -> node positions) against the real positions
                 ms = drv.ask1(req('lay.solve', k, lines))
                 if ms.startswith('error:'):
